@@ -60,6 +60,8 @@ func (c20) Classes() []sim.Class {
 			// frames unwound because the module was closed under a running call (close-on-context-done):
 			// the termination simulator's scenarios with a bracket-checking listener on every function
 			sim.Class{Name: "termination", Engine: e, Quick: 300, Thorough: 12000, RunTimeoutSec: 60},
+			// two calls in flight on one instance; a listener pauses in the middle of its stack walk
+			sim.Class{Name: "concurrent-calls", Engine: e, Quick: 100, Thorough: 4000, RunTimeoutSec: 60},
 		)
 	}
 	return cs
@@ -97,6 +99,9 @@ func (c06) Run(t *tape.Tape, cfg sim.Config) sim.Result {
 func (c20) Run(t *tape.Tape, cfg sim.Config) sim.Result {
 	if cfg.Class == "termination" {
 		return term.RunListened(t, cfg)
+	}
+	if cfg.Class == "concurrent-calls" {
+		return runConcurrentCalls(t, cfg)
 	}
 	return run(t, cfg, true)
 }
